@@ -19,6 +19,7 @@ func C01(p *load.Prog, r *report.Report) {
 		r.Undecided("C01.model", "layout", "", err.Error())
 		return
 	}
+	m.stateGuard(r, "C01", true, true)
 	fn := p.Method(p.Root, "Element", "Multiply")
 	if fn == nil {
 		r.Undecided("C01.anchor", "(*Element).Multiply", "", "method not found")
